@@ -101,9 +101,15 @@ def main():
                 t = gen_re(R.rng)
                 pats.append({"re": re_py(t), "ast": t})
         users.append({"name": "U%d" % i, "pats": pats, "form": R.rng.choice(["list", "tuple", "single"]) if len(pats) == 1 else R.rng.choice(["list", "tuple"])})
-    out = vf.impl("impl_dtypes.py", {"backends": ["numpy", "jax", "tf", "duck"], "names": names,
-                                     "user": [{"name": u["name"], "form": u["form"], "pats": [{k: v for k, v in p.items() if k != "ast"} for p in u["pats"]]} for u in users]}, timeout=900)
-    rows, cats = out["rows"], out["categories"]
+    req = {"backends": ["numpy", "jax", "tf", "duck"], "names": names,
+           "user": [{"name": u["name"], "form": u["form"], "pats": [{k: v for k, v in p.items() if k != "ast"} for p in u["pats"]]} for u in users]}
+    from concurrent.futures import ThreadPoolExecutor
+    with ThreadPoolExecutor(2) as ex:
+        # two fresh interpreters enumerate the same triples in opposite orders: the verdict is a function of (dtype, category, backend), not of history
+        out, out_rev = list(ex.map(lambda rv: vf.impl("impl_dtypes.py", dict(req, reverse=rv), timeout=900), [False, True]))
+    for r in out_rev["rows"]:
+        r["label"] = r["label"]; r["pass"] = "reversed"
+    rows, cats = out["rows"] + out_rev["rows"], out["categories"]
     R.coverage["library_notes"] = out["notes"]
 
     # model on the real facets
@@ -139,7 +145,7 @@ def main():
             if got != want:
                 R.violation("property", "%s array of dtype %s (documented kind: %s, canonical name %s): %s[...] %s it, the documented hierarchy says it should %s" % (
                     r["backend"], r["label"], kind, r["canon"], c, "accepts" if got else "rejects", "accept" if want else "reject"),
-                    {"backend": r["backend"], "dtype": r["label"], "category": c, "expected": want, "got": got, "facets": r["facets"]}, key=dict(key, direction="accepts" if got else "rejects"))
+                    {"backend": r["backend"], "dtype": r["label"], "category": c, "expected": want, "got": got, "facets": r["facets"], "enumeration_order": r.get("pass", "forward")}, key=dict(key, direction="accepts" if got else "rejects"))
             if mg != got:
                 R.violation("correspondence", "model (extract_name + generated table) says %s, implementation %s for %s/%s/%s (model name %s)" % (mg, got, r["backend"], r["label"], c, mname),
                             {"row": r, "model": m}, key=dict(key, kind="corr"), no_input=True)
